@@ -65,14 +65,16 @@ theorem openWalk_log : ∀ (n : Nat) (s : St), s.cur = none → n = s.argc - s.i
     · rename_i name val hcl
       obtain ⟨d, h1, h2⟩ := ih (St.setVarByName s.fetch.2 name val)
         (by simp [setVarByName_fields2, St.fetch, hc]) (by simp [setVarByName_fields2, St.fetch]; exact hn')
+      simp only [St.fetch, setVarByName_ilog] at h1
       refine ⟨.op (s.argv.getD s.idx []) :: d, ?_, ?_⟩
-      · rw [h1, setVarByName_ilog]; simp [St.fetch]
+      · rw [h1]; simp
       · simp only [hcl]
         simpa [remaining, setVarByName_fields2, St.fetch, ← hn'] using h2
     · rename_i hcl
       obtain ⟨d, h1, h2⟩ := ih s.fetch.2 (by simpa [St.fetch] using hc) (by simpa [St.fetch] using hn')
+      simp only [St.fetch] at h1
       refine ⟨.op (s.argv.getD s.idx []) :: d, ?_, ?_⟩
-      · rw [h1]; simp [St.fetch]
+      · rw [h1]; simp
       · simp only [hcl]
         simpa [remaining, St.fetch, ← hn'] using h2
     · rename_i hcl
@@ -80,9 +82,10 @@ theorem openWalk_log : ∀ (n : Nat) (s : St), s.cur = none → n = s.argc - s.i
       split
       · rename_i hs
         obtain ⟨d, h1, h2⟩ := ih { (St.setFile s.fetch.2 [45] true s.stdin) with stdin := [], cur := none } rfl
-          (by simpa [St.setFile] using hn')
+          (by simp [St.setFile, St.fetch]; exact hn')
+        simp only [St.fetch, St.setFile] at h1
         refine ⟨.op (s.argv.getD s.idx []) :: d, ?_, ?_⟩
-        · rw [h1]; simp [St.setFile, St.fetch]
+        · simp only [St.setFile]; rw [h1]; simp
         · simpa [remaining, St.fetch, ← hn', St.setFile, hs, numberedL] using h2
       · rename_i r rs hs
         exact ⟨[.op (s.argv.getD s.idx []), .record [45] 1 r], by simp [St.setFile, St.took],
@@ -95,9 +98,10 @@ theorem openWalk_log : ∀ (n : Nat) (s : St), s.cur = none → n = s.argc - s.i
         cases rs0 with
         | nil =>
           obtain ⟨d, h1, h2⟩ := ih { (St.setFile s.fetch.2 name false []) with cur := none } rfl
-            (by simpa [St.setFile] using hn')
+            (by simp [St.setFile, St.fetch]; exact hn')
+          simp only [St.fetch, St.setFile] at h1
           refine ⟨.op (s.argv.getD s.idx []) :: d, ?_, ?_⟩
-          · rw [h1]; simp [St.setFile, St.fetch]
+          · simp only [St.setFile]; rw [h1]; simp
           · simpa [remaining, St.fetch, ← hn', St.setFile, numberedL] using h2
         | cons r rs =>
           exact ⟨[.op (s.argv.getD s.idx []), .record name 1 r], by simp [St.setFile, St.took],
